@@ -1,8 +1,15 @@
 import Cello.Seq
+import Cello.SeqStore
 import Cello.Sort
 import Driver.Common
-/- driver for engine `seq` (C04): interprets the op files of harness/h_seq.c on the model lean/Cello/Seq.lean and prints
-   the same `O` lines (see the header of h_seq.c for the op language and the output format). -/
+/- driver for engine `seq` (C04): interprets the op files of harness/h_seq.c on the model and prints the same `O` lines (see
+   the header of h_seq.c for the op language and the output format).
+
+   Every container is run at BOTH levels: the STORE level of lean/Cello/SeqStore.lean (`ArrS`: block of cells / memmove /
+   realloc; `LstS`: heap of nodes / link / unlink / two-ended walk; `TupS`: pointer cells with the Terminal cell) — whose
+   state is what is dumped and compared with the C representation — and the LIST level of lean/Cello/Seq.lean, which the
+   refinement theorems are about.  After every op the two are compared (they always agree: theorems `C04_store_*`); a
+   disagreement is printed as an `M` line so that a broken proof can be turned into a concrete input. -/
 open Cello.Seq
 
 namespace SeqDrv
@@ -17,15 +24,15 @@ deriving Repr, Inhabited
 instance : BEq Obj := ⟨fun a b => a.val == b.val⟩
 
 inductive Cont where
-  | arr (ek : Nat) (a : Arr Int)      -- ek = element kind: 0 Int, 1 String, 2 Rec12 (12-byte record), 3 Rec5 (5-byte record)
-  | lst (ek : Nat) (l : Lst Int)
-  | tup (t : Tup Obj)
+  | arr (ek : Nat) (s : ArrS Int) (a : Arr Int)   -- ek = element kind: 0 Int, 1 String, 2 Rec12 (12-byte record), 3 Rec5 (5-byte record)
+  | lst (ek : Nat) (s : LstS Int) (l : Lst Int)
+  | tup (s : TupS Obj) (t : Tup Obj)
 
 def Cont.ek : Cont → Nat
-  | .arr s _ => s | .lst s _ => s | .tup _ => 0
+  | .arr k _ _ => k | .lst k _ _ => k | .tup _ _ => 0
 def Cont.isStr (c : Cont) : Bool := c.ek == 1
 def Cont.isTup : Cont → Bool
-  | .tup _ => true | _ => false
+  | .tup _ _ => true | _ => false
 
 structure St where
   slots : Array (Option Cont) := Array.replicate 16 none
@@ -50,10 +57,69 @@ def fmtSeq {α : Type} (sh : α → String) (enc : α → Nat) (xs : List α) : 
 def fmtInts (xs : List Int) : String := fmtSeq toString encInt xs
 def fmtObjs (xs : List Obj) : String := fmtSeq showObj encObj xs
 
+/-- the chain of a store-level List read as the harness reads it: forward from `head` along `next` (at most `nitems+2`
+    nodes), and whether the links are consistent: `head->prev` NULL, the walk ends at NULL, its last node is `tail`,
+    the walk back from `tail` along `prev` is the exact reverse, and the count is `nitems` -/
+def lstWalk (s : LstS Int) : List Int × Bool :=
+  let rec fwd (fuel : Nat) (c : Option Nat) (acc : Array (Nat × Int)) : Array (Nat × Int) × Bool :=
+    match fuel, c with
+    | _, none => (acc, true)
+    | 0, some _ => (acc, false)
+    | fuel + 1, some a => match s.node a with
+      | none => (acc, false)
+      | some nd => fwd fuel nd.next (acc.push (a, nd.val))
+  let rec bwd (fuel : Nat) (c : Option Nat) (acc : Array Nat) : Array Nat × Bool :=
+    match fuel, c with
+    | _, none => (acc, true)
+    | 0, some _ => (acc, false)
+    | fuel + 1, some a => match s.node a with
+      | none => (acc, false)
+      | some nd => bwd fuel nd.prev (acc.push a)
+  let (cells, endedF) := fwd (s.nitems + 2) s.head #[]
+  let (back, endedB) := bwd (s.nitems + 2) s.tail #[]
+  let headOk := match s.head with
+    | none => true
+    | some h => match s.node h with
+      | some nd => nd.prev.isNone
+      | none => false
+  let lastOk := (cells.back?.map (·.1)) == s.tail
+  let revOk := back.toList == (cells.toList.map (·.1)).reverse
+  (cells.toList.map (·.2), endedF && endedB && headOk && lastOk && revOk && cells.size == s.nitems)
+
 def Cont.dump : Cont → String
-  | .arr s a => s!"{match s with | 0 => "A" | 1 => "AS" | 2 => "A12" | _ => "A5"} n={a.items.length} s={a.nslots} {fmtInts a.items}"
-  | .lst s l => s!"{if s == 1 then "LS" else "L"} n={l.nitems} {fmtInts l.items}"
-  | .tup t => s!"T n={t.items.length} {fmtObjs t.items}"
+  | .arr k s _ =>
+    let nm := match k with | 0 => "A" | 1 => "AS" | 2 => "A12" | _ => "A5"
+    match s.items? with
+    | some l => s!"{nm} n={s.nitems} s={s.cells.size} {fmtInts l}"
+    | none => s!"{nm} n={s.nitems} s={s.cells.size} UNWRITTEN"
+  | .lst k s _ =>
+    let (items, ok) := lstWalk s
+    s!"{if k == 1 then "LS" else "L"} n={s.nitems} {fmtInts items}" ++ (if ok then "" else " BADLINKS")
+  | .tup s _ =>
+    match s.items? with
+    | some l => s!"T n={l.length} {fmtObjs l}"
+    | none => "T UNTERMINATED"
+
+/-- store level against list level (always agree: theorems `C04_store_*`) -/
+def Cont.levelCheck : Cont → String
+  | .arr _ s a =>
+    if s.items?.map (fun l => l == a.items) == some true && s.cells.size == a.nslots && s.nitems == a.items.length then ""
+    else "\nM store-vs-list: the block of cells does not hold the list-level Array"
+  | .lst _ s l =>
+    let (items, ok) := lstWalk s
+    if ok && items == l.items && s.nitems == l.nitems then "" else "\nM store-vs-list: the chain of nodes does not hold the list-level List"
+  | .tup s t =>
+    let same := match s.items? with
+      | some l => l.length == t.items.length && (l.zip t.items).all (fun p => p.1.id == p.2.id && p.1.val == p.2.val)
+      | none => false
+    if same && s.cells.size == t.items.length + 1 then "" else "\nM store-vs-list: the cell block does not hold the list-level Tuple"
+
+def resEq : Res Unit → Res Unit → Bool
+  | .ok _, .ok _ => true
+  | .raised a, .raised b => a == b
+  | .ub, .ub => true
+  | _, _ => false
+def resCheck (a b : Res Unit) : String := if resEq a b then "" else "\nM store-vs-list: outcomes differ"
 
 def resStr : Res Unit → String
   | .ok _ => "ok"
@@ -150,21 +216,73 @@ def optSeq {α : Type} (f : List α → String) : Option (List α) → String
   | some l => f l
   | none => "diverges"
 
+def resOf {β : Type} (sh : β → String) : Res β → String
+  | .ok v => sh v
+  | .raised e => "err=" ++ e.name
+  | .ub => "ub"
+
 /-- ops on an Int-element container (Array or List), generic part -/
 def stepInts (st : St) (k : Nat) (c : Cont) (cmd : String) (args : List String) : St × String :=
   let str := c.ek
   let fin (c' : Cont) (r : Res Unit) : St × String := (setSlot st k (some c'), out st cmd (resStr r) (some c'))
   let run (op : Op Int) : St × String :=
     match c with
-    | .arr s a =>
+    | .arr ek s a =>
+      let (s', rs) := s.step op
       let (a', r) := a.step op
-      let (st', o) := fin (.arr s a') r
-      (st', o ++ specCheck (· == ·) (Spec.arrStep a.items op) a.items a'.items r)
-    | .lst s l =>
+      let c' := Cont.arr ek s' a'
+      let (st', o) := fin c' rs
+      (st', o ++ resCheck rs r ++ c'.levelCheck ++ specCheck (· == ·) (Spec.arrStep a.items op) a.items a'.items r)
+    | .lst ek s l =>
+      let (s', rs) := s.step op
       let (l', r) := l.step op
-      let (st', o) := fin (.lst s l') r
-      (st', o ++ specCheck (· == ·) (Spec.lstStep l.items op) l.items l'.items r)
-    | .tup _ => (st, "O bad-op")
+      let c' := Cont.lst ek s' l'
+      let (st', o) := fin c' rs
+      let sp := Spec.lstStep l.items op
+      -- `assign` from an iterator-only source is out of range for a List but clears it before it raises (C12's business)
+      let chk := if op.iterAssign then "" else specCheck (· == ·) sp l.items l'.items r
+      (st', o ++ resCheck rs r ++ c'.levelCheck ++ chk)
+    | .tup _ _ => (st, "O bad-op")
+  -- push(x, get(x, k)) / push_at(x, get(x, k), i): the container's own element as the argument
+  let own (k : Int) (i : Option Int) : St × String :=
+    match c with
+    | .arr ek s a =>
+      let n := a.items.length
+      let kin := (Spec.idx n k).isSome
+      let ipos : Option Nat := match i with
+        | none => some n
+        | some i => Spec.arrInsIdx n i
+      let refused := match Spec.idx n k, ipos with
+        | some kk, some ip => n + 1 > a.nslots || (i.isSome && kk ≥ ip)
+        | _, _ => false
+      if refused then (st, s!"O {cmd} own-refused") else
+      let (s', rs) := match i with
+        | none => s.pushElem k
+        | some i => s.pushAtElem k i
+      let (a', r) := match i with
+        | none => a.pushElem k
+        | some i => a.pushAtElem k i
+      let sp : Option (List Int) := match Spec.get a.items k, ipos with
+        | some x, some ip => if kin then some (a.items.insertIdx ip x) else none
+        | _, _ => none
+      let c' := Cont.arr ek s' a'
+      let (st', o) := fin c' rs
+      (st', o ++ resCheck rs r ++ c'.levelCheck ++ specCheck (· == ·) sp a.items a'.items r)
+    | .lst ek s l =>
+      let (s', rs) := match i with
+        | none => s.pushElem k
+        | some i => s.pushAtElem k i
+      let (l', r) := match i with
+        | none => l.pushElem k
+        | some i => l.pushAtElem k i
+      let sp : Option (List Int) := match Spec.get l.items k with
+        | some x => Spec.lstStep l.items (match i with | none => .push x | some i => .pushAt x i)
+        | none => none
+      let c' := Cont.lst ek s' l'
+      let (st', o) := fin c' rs
+      (st', o ++ resCheck rs r ++ c'.levelCheck ++ specCheck (· == ·) sp l.items l'.items r)
+    | .tup _ _ => (st, "O bad-op")
+  let obsCheck (same : Bool) : String := if same then "" else "\nM store-vs-list: an observation differs"
   match cmd, args with
   | "push", [e] => match parseVal str e with
     | some v => run (.push v) | none => (st, "O bad-op")
@@ -175,56 +293,69 @@ def stepInts (st : St) (k : Nat) (c : Cont) (cmd : String) (args : List String) 
     | some v, some i => run (.pushAt v i) | _, _ => (st, "O bad-op")
   | "popat", [i] => match parseInt i with
     | some i => run (.popAt i) | none => (st, "O bad-op")
+  | "pushelem", [k] => match parseInt k with
+    | some k => own k none | none => (st, "O bad-op")
+  | "pushatelem", [k, i] => match parseInt k, parseInt i with
+    | some k, some i => own k (some i) | _, _ => (st, "O bad-op")
   | "set", [i, e] => match parseInt i, parseVal str e with
     | some i, some v => run (.set i v) | _, _ => (st, "O bad-op")
   | "rem", [e] => match parseVal str e with
     | some v => run (.rem v) | none => (st, "O bad-op")
   | "get", [i] => match parseInt i with
     | some i =>
-      let r := match c with
-        | .arr _ a => a.get i | .lst _ l => l.get i | .tup _ => .ub
-      let rs := match r with
-        | .ok v => s!"v={v}" | .raised e => "err=" ++ e.name | .ub => "ub"
-      (st, out st cmd rs (some c))
+      let (rs, r) : Res Int × Res Int := match c with
+        | .arr _ s a => (s.get i, a.get i) | .lst _ s l => (s.get i, l.get i) | .tup _ _ => (.ub, .ub)
+      let sh := resOf (fun (v : Int) => s!"v={v}")
+      (st, out st cmd (sh rs) (some c) ++ obsCheck (sh rs == sh r))
     | none => (st, "O bad-op")
   | "mem", [e] => match parseVal str e with
     | some v =>
-      let b := match c with
-        | .arr _ a => a.mem v | .lst _ l => l.mem v | .tup _ => false
-      (st, out st cmd (if b then "b=1" else "b=0") (some c))
+      let (rs, b) : Res Bool × Bool := match c with
+        | .arr _ s a => (s.mem v, a.mem v) | .lst _ s l => (s.mem v, l.mem v) | .tup _ _ => (.ub, false)
+      let sh := resOf (fun (b : Bool) => if b then "b=1" else "b=0")
+      (st, out st cmd (sh rs) (some c) ++ obsCheck (sh rs == sh (.ok b)))
     | none => (st, "O bad-op")
   | "len", [] =>
-    let n := match c with
-      | .arr _ a => a.nitems | .lst _ l => l.nitems | .tup _ => 0
-    (st, out st cmd s!"v={n}" (some c))
+    let (n, n') := match c with
+      | .arr _ s a => (s.nitems, a.nitems) | .lst _ s l => (s.nitems, l.nitems) | .tup _ _ => (0, 0)
+    (st, out st cmd s!"v={n}" (some c) ++ obsCheck (n == n'))
   | "resize", [n] => match parseNat n with
     | some n =>
       if n > 100000 then (st, "O bad-op") else
       match c with
-      | .lst 1 l => if n > l.items.length then (st, "O resize unsupported") else run (.resize n)
+      | .lst 1 _ l => if n > l.items.length then (st, "O resize unsupported") else run (.resize n)
       | _ => run (.resize n)
     | none => (st, "O bad-op")
   | "sort", [f] => match parseNat f with
     | some f => if f > 3 then (st, "O bad-op") else run (.sort (cmpInt f))
     | none => (st, "O bad-op")
   | "iter", [] =>
-    let (fw, bw) := match c with
-      | .arr _ a => (a.iterFwd, a.iterBwd)
-      | .lst _ l => (l.iterFwd, l.iterBwd)
-      | .tup _ => (none, none)
-    (st, out st cmd s!"fwd={optSeq fmtInts fw} bwd={optSeq fmtInts bw}" (some c))
+    let (fw, bw, fw', bw') := match c with
+      | .arr _ s a => (s.iterFwd, s.iterBwd, a.iterFwd, a.iterBwd)
+      | .lst _ s l => (s.iterFwd, s.iterBwd, l.iterFwd, l.iterBwd)
+      | .tup _ _ => (none, none, none, none)
+    (st, out st cmd s!"fwd={optSeq fmtInts fw} bwd={optSeq fmtInts bw}" (some c) ++ obsCheck (fw == fw' && bw == bw'))
   | _, _ => (st, "O bad-op")
 
 def ident (o : Obj) : Nat := o.id
 
-def stepTup (st : St) (k : Nat) (t : Tup Obj) (cmd : String) (args : List String) : St × String :=
-  let fin (st : St) (t' : Tup Obj) (r : Res Unit) : St × String :=
-    (setSlot st k (some (.tup t')), out st cmd (resStr r) (some (.tup t')))
+def sameObjs (a b : Option (List Obj)) : Bool :=
+  match a, b with
+  | none, none => true
+  | some x, some y => x.length == y.length && (x.zip y).all (fun p => p.1.id == p.2.id && p.1.val == p.2.val)
+  | _, _ => false
+
+def stepTup (st : St) (k : Nat) (s : TupS Obj) (t : Tup Obj) (cmd : String) (args : List String) : St × String :=
   let run (st : St) (op : Op Obj) : St × String :=
+    let (s', rs) := s.step op
     let (t', r) := t.step op
-    let (st', o) := fin st t' r
-    (st', o ++ specCheck (fun (a b : Obj) => a.id == b.id && a.val == b.val) (Spec.tupStep t.items op) t.items t'.items r)
+    let c' := Cont.tup s' t'
+    let chk := if op.iterAssign && !t.items.isEmpty then ""      -- known finding KF-C04-tuple-assign-iter: the model appends
+      else specCheck (fun (a b : Obj) => a.id == b.id && a.val == b.val) (Spec.tupStep t.items op) t.items t'.items r
+    (setSlot st k (some c'), out st cmd (resStr rs) (some c') ++ resCheck rs r ++ c'.levelCheck ++ chk)
   let fuel := t.items.length + 1
+  let c := Cont.tup s t
+  let obsCheck (same : Bool) : String := if same then "" else "\nM store-vs-list: an observation differs"
   match cmd, args with
   | "push", [e] => match parseObj st e with
     | (st, some o) => if hasId t o.id then (st, "O push dup-refused") else run st (.push o)
@@ -240,26 +371,39 @@ def stepTup (st : St) (k : Nat) (t : Tup Obj) (cmd : String) (args : List String
     | (st, none) => (st, "O bad-op")
   | "popat", [i] => match parseInt i with
     | some i => run st (.popAt i) | none => (st, "O bad-op")
+  | "pushelem", [k] => match parseInt k with
+    | some k => if (Spec.idx t.items.length k).isSome then (st, "O pushelem dup-refused") else (st, out st cmd "err=IndexOutOfBoundsError" (some c))
+    | none => (st, "O bad-op")
+  | "pushatelem", [k, i] => match parseInt k, parseInt i with
+    | some k, some _ => if (Spec.idx t.items.length k).isSome then (st, "O pushatelem dup-refused") else (st, out st cmd "err=IndexOutOfBoundsError" (some c))
+    | _, _ => (st, "O bad-op")
   | "set", [i, e] => match parseInt i with
     | some i => match parseObj st e with
-      | (st, some o) => if hasId t o.id then (st, "O set dup-refused") else run st (.set i o)
+      | (st, some o) =>
+        let dup := match Spec.idx t.items.length i with
+          | some kp => (t.items.eraseIdx kp).any (fun y => y.id == o.id)
+          | none => false
+        if dup then (st, "O set dup-refused") else run st (.set i o)
       | (st, none) => (st, "O bad-op")
     | none => (st, "O bad-op")
   | "rem", [e] => match parseVal 0 e with
     | some v => run st (.rem ⟨0, v⟩) | none => (st, "O bad-op")
   | "get", [i] => match parseInt i with
     | some i =>
-      let rs := match t.get i with
-        | .ok o => s!"v={showObj o}" | .raised e => "err=" ++ e.name | .ub => "ub"
-      (st, out st cmd rs (some (.tup t)))
+      let sh := resOf (fun (o : Obj) => s!"v={showObj o}")
+      (st, out st cmd (sh (s.get i)) (some c) ++ obsCheck (sh (s.get i) == sh (t.get i)))
     | none => (st, "O bad-op")
   | "mem", [e] => match parseVal 0 e with
     | some v =>
-      let rs := match t.mem ident ⟨0, v⟩ fuel with
+      let sh : Option Bool → String := fun
         | some true => "b=1" | some false => "b=0" | none => "diverges"
-      (st, out st cmd rs (some (.tup t)))
+      let rs := s.mem ident ⟨0, v⟩ fuel
+      (st, out st cmd (sh rs) (some c) ++ obsCheck (rs == t.mem ident ⟨0, v⟩ fuel))
     | none => (st, "O bad-op")
-  | "len", [] => (st, out st cmd s!"v={t.len}" (some (.tup t)))
+  | "len", [] =>
+    match s.len with
+    | some n => (st, out st cmd s!"v={n}" (some c) ++ obsCheck (n == t.len))
+    | none => (st, out st cmd "ub" (some c))
   | "resize", [n] => match parseNat n with
     | some n => if n > 100000 then (st, "O bad-op") else run st (.resize n)
     | none => (st, "O bad-op")
@@ -267,39 +411,58 @@ def stepTup (st : St) (k : Nat) (t : Tup Obj) (cmd : String) (args : List String
     | some f => if f > 3 then (st, "O bad-op") else run st (.sort (cmpObj f))
     | none => (st, "O bad-op")
   | "iter", [] =>
-    (st, out st cmd s!"fwd={optSeq fmtObjs (t.iterFwd ident fuel)} bwd={optSeq fmtObjs (t.iterBwd ident fuel)}" (some (.tup t)))
+    let fw := s.iterFwd ident fuel; let bw := s.iterBwd ident fuel
+    (st, out st cmd s!"fwd={optSeq fmtObjs fw} bwd={optSeq fmtObjs bw}" (some c)
+      ++ obsCheck (sameObjs fw (t.iterFwd ident fuel) && sameObjs bw (t.iterBwd ident fuel)))
   | _, _ => (st, "O bad-op")
 
-/-- `concat dst src` / `assign dst src` -/
-def stepTwo (st : St) (k : Nat) (c : Cont) (cmd : String) (srcTok : String) : St × String :=
+def keepVal (p : Nat) (v : Int) : Bool := p == 0 || (p == 1 && v % 2 == 0)
+
+/-- `concat dst src` / `assign dst src` / `assignf dst src p` -/
+def stepTwo (st : St) (k : Nat) (c : Cont) (cmd : String) (srcTok : String) (pred : Option Nat := none) : St × String :=
   let isc := cmd == "concat"
+  let indexed := pred.isNone
+  let p := pred.getD 0
+  let fin (c' : Cont) (rs r : Res Unit) : St × String :=
+    (setSlot st k (some c'), out st cmd (resStr rs) (some c') ++ resCheck rs r ++ c'.levelCheck)
   match getSlot st srcTok with
   | none => (st, "O bad-op")
   | some (ks, src) =>
-    if ks == k then (st, "O bad-op") else
+    if ks == k then
+      -- assign(x, x): the early return of fix a3140e4 (Array, List); Tuple re-stores its own cells.  concat(x, x): `kfself` only
+      if isc || !indexed then (st, "O bad-op") else
+      match c with
+      | .arr ek s a => let (s', rs) := s.assignSelf; let (a', r) := a.assignSelf; fin (.arr ek s' a') rs r
+      | .lst ek s l => let (s', rs) := s.assignSelf; let (l', r) := l.assignSelf; fin (.lst ek s' l') rs r
+      | .tup s t => let (s', rs) := s.assignSelf; let (t', r) := t.assignSelf; fin (.tup s' t') rs r
+    else
     match c with
-    | .tup t =>
+    | .tup s t =>
       match src with
-      | .tup u =>
-        if isc && u.items.any (fun o => hasId t o.id) then (st, "O concat dup-refused")
+      | .tup _ u =>
+        let ys := if indexed then u.items else u.items.filter (fun o => keepVal p o.val)
+        if (isc || !indexed) && ys.any (fun o => hasId t o.id) then (st, s!"O {cmd} dup-refused")
         else
-          let (t', r) := t.step (if isc then .concat u.items else .assign u.items)
-          (setSlot st k (some (.tup t')), out st cmd (resStr r) (some (.tup t')))
+          let op : Op Obj := if isc then .concat ys else .assign ys indexed
+          let (s', rs) := s.step op
+          let (t', r) := t.step op
+          fin (.tup s' t') rs r
       | _ => (st, "O bad-op")
     | _ =>
       let ys : Option (List Int) :=
         match src with
-        | .arr s a => if s == c.ek then some a.items else none
-        | .lst s l => if s == c.ek then some l.items else none
-        | .tup u => if isc && c.ek == 0 then some (u.items.map (·.val)) else none
+        | .arr ek _ a => if ek == c.ek then some a.items else none
+        | .lst ek _ l => if ek == c.ek then some l.items else none
+        | .tup _ u => if isc && c.ek == 0 then some (u.items.map (·.val)) else none
       match ys with
       | none => (st, "O bad-op")
       | some ys =>
-        let op : Op Int := if isc then .concat ys else .assign ys
+        let ys := if indexed then ys else ys.filter (keepVal p)
+        let op : Op Int := if isc then .concat ys else .assign ys indexed
         match c with
-        | .arr s a => let (a', r) := a.step op; (setSlot st k (some (.arr s a')), out st cmd (resStr r) (some (.arr s a')))
-        | .lst s l => let (l', r) := l.step op; (setSlot st k (some (.lst s l')), out st cmd (resStr r) (some (.lst s l')))
-        | .tup _ => (st, "O bad-op")
+        | .arr ek s a => let (s', rs) := s.step op; let (a', r) := a.step op; fin (.arr ek s' a') rs r
+        | .lst ek s l => let (s', rs) := s.step op; let (l', r) := l.step op; fin (.lst ek s' l') rs r
+        | .tup _ _ => (st, "O bad-op")
 
 def parseElems (st : St) (toks : List String) : St × Option (List Obj) :=
   toks.foldl (fun (acc : St × Option (List Obj)) tok =>
@@ -312,6 +475,10 @@ def parseElems (st : St) (toks : List String) : St × Option (List Obj) :=
 def nodupIds (os : List Obj) : Bool :=
   (os.foldl (fun (acc : Bool × List Nat) o => (acc.1 && !acc.2.contains o.id, o.id :: acc.2)) (true, [])).1
 
+def mkArr (ek : Nat) (xs : List Int) : Cont := .arr ek (ArrS.new xs) (Arr.new xs)
+def mkLst (ek : Nat) (xs : List Int) : Cont := .lst ek (LstS.new xs).1 (Lst.empty.concat xs).1
+def mkTup (os : List Obj) : Cont := .tup (TupS.new os) ⟨os⟩
+
 def stepLine (st : St) (line : String) : St × String :=
   match Driver.words line with
   | [] => (st, "")
@@ -321,9 +488,11 @@ def stepLine (st : St) (line : String) : St × String :=
     match parseObj st e with
     | (st, some o) =>
       let t : Tup Obj := ⟨[o, o]⟩
-      match t.iterFwd ident 1000 with
-      | none => (st, "O kf13 fwd=diverges")
-      | some l => (st, s!"O kf13 fwd={l.length}")
+      let s : TupS Obj := TupS.new [o, o]
+      let chk := if sameObjs (s.iterFwd ident 1000) (t.iterFwd ident 1000) then "" else "\nM store-vs-list: an observation differs"
+      match s.iterFwd ident 1000 with
+      | none => (st, "O kf13 fwd=diverges" ++ chk)
+      | some l => (st, s!"O kf13 fwd={l.length}" ++ chk)
     | (st, none) => (st, "O bad-op")
   | "kfself" :: opn :: kind :: elems =>
     if opn != "assign" && opn != "concat" then (st, "O bad-op") else
@@ -341,23 +510,55 @@ def stepLine (st : St) (line : String) : St × String :=
         let l : Lst Int := (Lst.empty.concat xs).1
         if isc then
           match l.concatSelf 100000 with
-          | some l' => (st, fmt (.ok ()) (.lst 0 l'))
+          | some l' => (st, fmt (.ok ()) (mkLst 0 l'.items))
           | none => (st, s!"O kfself {opn} {kind} diverges")
-        else let (l', r) := l.assignSelf; (st, fmt r (.lst 0 l'))
+        else
+          let (s', rs) := (LstS.new xs).1.assignSelf
+          (st, fmt rs (.lst 0 s' l))
       else
-        let a0 : Arr Int := Arr.new xs
-        let a : Arr Int := if kind == "AR" && xs.length > 0 then (a0.resize (2 * xs.length)).1 else a0
-        let (a', r) := if isc then a.concatSelf else a.assignSelf
-        (st, fmt r (.arr 0 a'))
+        let c0 := mkArr 0 xs
+        let c1 : Cont := match c0 with
+          | .arr ek s a => if kind == "AR" && xs.length > 0 then .arr ek (s.resize (2 * xs.length)).1 (a.resize (2 * xs.length)).1 else c0
+          | _ => c0
+        match c1 with
+        | .arr ek s a =>
+          if isc then
+            -- concat(a, a) is modelled at the list level only (known finding KF-C04-self-concat)
+            let (a', r) := a.concatSelf
+            match r with
+            | .ok _ => (st, s!"O kfself {opn} {kind} ret {kind.take 1} n={a'.items.length} s={a'.nslots} {fmtInts a'.items}")
+            | _ => (st, fmt r c1)
+          else let (s', rs) := s.assignSelf; (st, fmt rs (.arr ek s' a))
+        | _ => (st, "O bad-op")
     else if kind == "T" then
       match parseElems st elems with
       | (st, some os) =>
         if !nodupIds os || elems.length > 200 then (st, "O bad-op") else
         let t : Tup Obj := ⟨os⟩
-        let (t', r) := if isc then t.concatSelf else t.assignSelf
-        (st, fmt r (.tup t'))
+        if isc then let (t', r) := t.concatSelf; (st, fmt r (mkTup t'.items))
+        else let (s', rs) := (TupS.new os).assignSelf; (st, fmt rs (.tup s' t))
       | (st, none) => (st, "O bad-op")
     else (st, "O bad-op")
+  | "kfown" :: opn :: ns :: kk :: ii :: elems =>
+    if opn != "push" && opn != "pushat" then (st, "O bad-op") else
+    match parseNat ns, parseInt kk, parseInt ii with
+    | some ns, some kk, some ii =>
+      let vs := elems.map (parseVal 0)
+      if ns > 100000 || !vs.all Option.isSome || elems.length > 200 then (st, "O bad-op") else
+      let xs := vs.filterMap id
+      let s0 : ArrS Int := ArrS.new xs
+      let a0 : Arr Int := Arr.new xs
+      let s : ArrS Int := if ns > xs.length then (s0.resize ns).1 else s0
+      let a : Arr Int := if ns > xs.length then (a0.resize ns).1 else a0
+      let (s', rs) := if opn == "pushat" then s.pushAtElem kk ii else s.pushElem kk
+      let (a', r) := if opn == "pushat" then a.pushAtElem kk ii else a.pushElem kk
+      let c' := Cont.arr 0 s' a'
+      let chk := resCheck rs r ++ c'.levelCheck
+      match rs with
+      | .ok _ => (st, s!"O kfown {opn} ret {c'.dump}" ++ chk)
+      | .raised e => (st, s!"O kfown {opn} ret err={e.name}" ++ chk)
+      | .ub => (st, s!"O kfown {opn} ub" ++ chk)
+    | _, _, _ => (st, "O bad-op")
   | "new" :: slot :: kind :: elems =>
     match emptySlot st slot with
     | none => (st, "O bad-op")
@@ -366,8 +567,8 @@ def stepLine (st : St) (line : String) : St × String :=
         let vs := elems.map (parseVal str)
         if vs.all Option.isSome then
           let xs := vs.filterMap id
-          let c : Cont := if isArr then .arr str (Arr.new xs) else .lst str ((Lst.empty.concat xs).1)
-          (setSlot st k (some c), out st "new" "ok" (some c))
+          let c : Cont := if isArr then mkArr str xs else mkLst str xs
+          (setSlot st k (some c), out st "new" "ok" (some c) ++ c.levelCheck)
         else (st, "O bad-op")
       match kind with
       | "A" => mk 0 true
@@ -380,8 +581,8 @@ def stepLine (st : St) (line : String) : St × String :=
         match parseElems st elems with
         | (st, some os) =>
           if nodupIds os then
-            let c : Cont := .tup ⟨os⟩
-            (setSlot st k (some c), out st "new" "ok" (some c))
+            let c : Cont := mkTup os
+            (setSlot st k (some c), out st "new" "ok" (some c) ++ c.levelCheck)
           else (st, "O bad-op")
         | (st, none) => (st, "O bad-op")
       | _ => (st, "O bad-op")
@@ -392,11 +593,11 @@ def stepLine (st : St) (line : String) : St × String :=
   | ["copy", dst, src] =>
     match emptySlot st dst, getSlot st src with
     | some k, some (_, c) =>
-      let c' : Cont := match c with
-        | .arr s a => .arr s a.copy
-        | .lst s l => .lst s l.copy
-        | .tup t => .tup t.copy
-      (setSlot st k (some c'), out st "copy" "ok" (some c'))
+      let (c', rs) : Cont × Res Unit := match c with
+        | .arr ek s a => let (s', rs) := s.copy; (.arr ek s' a.copy, rs)
+        | .lst ek s l => let (s', rs) := (LstS.new l.items); (.lst ek s' l.copy, rs)
+        | .tup s t => let (s', rs) := s.copy; (.tup s' t.copy, rs)
+      (setSlot st k (some c'), out st "copy" (resStr rs) (some c') ++ c'.levelCheck)
     | _, _ => (st, "O bad-op")
   | cmd :: slot :: args =>
     match getSlot st slot with
@@ -406,8 +607,14 @@ def stepLine (st : St) (line : String) : St × String :=
         match args with
         | [src] => stepTwo st k c cmd src
         | _ => (st, "O bad-op")
+      else if cmd == "assignf" then
+        match args with
+        | [src, p] => match parseNat p with
+          | some p => if p > 2 then (st, "O bad-op") else stepTwo st k c cmd src (some p)
+          | none => (st, "O bad-op")
+        | _ => (st, "O bad-op")
       else match c with
-        | .tup t => stepTup st k t cmd args
+        | .tup s t => stepTup st k s t cmd args
         | _ => stepInts st k c cmd args
   | _ => (st, "O bad-op")
 
